@@ -40,7 +40,7 @@ func init() {
 				}
 				return 100_000
 			}, Run: func(c *run.Ctx, idx uint64) { c07Run(c, idx, true) },
-				Min: map[string]int64{"histories": 50000, "steps": 1000000, "selector_comparisons": 1000000, "incrementing_writes": 100000, "zero_value_encoder": 1000, "paths_drawn": 50000, "gradient_paints": 2000, "through_logger": 2000, "runs_of_255_or_more": 500, "raster_calls_compared": 500000}},
+				Min: map[string]int64{"histories": 50000, "steps": 1000000, "selector_comparisons": 1000000, "incrementing_writes": 100000, "zero_value_encoder": 1000, "paths_drawn": 50000, "gradient_paints": 2000, "through_logger": 2000, "direct_renderer_given_its_rasterizer_after_reset": 10000, "runs_of_255_or_more": 500, "raster_calls_compared": 500000}},
 			{Name: "helpers", N: func(t string) uint64 {
 				if t == "thorough" {
 					return 5_000_000
@@ -320,7 +320,12 @@ func c07Run(c *run.Ctx, idx uint64, exact bool) {
 	// A: direct
 	rzA := &rec.Raster{}
 	var zA render.Renderer
-	zA.SetRasterizer(rzA, rect)
+	// one time in four the directly driven Renderer is given its rasterizer and
+	// rectangle only after Reset (the decoder always does it the other way round)
+	lateRasterizer := (idx>>2)%4 == 1
+	if !lateRasterizer {
+		zA.SetRasterizer(rzA, rect)
+	}
 	type snap struct {
 		cs, ns uint8
 		err    error
@@ -340,6 +345,10 @@ func c07Run(c *run.Ctx, idx uint64, exact bool) {
 			zA.SetLOD(3, 4)
 		}
 		dA.Reset(vb, pal)
+		if lateRasterizer {
+			zA.SetRasterizer(rzA, rect)
+			c.Count("direct_renderer_given_its_rasterizer_after_reset", 1)
+		}
 		c07Drive(dA, acts, func(i int, err error) { snaps[i] = snap{dA.CSel(), dA.NSel(), err} })
 	})
 	if !ok {
